@@ -8,7 +8,7 @@ from ..oracle import Oracle
 
 ID = "C14"
 P = "Webauthn.Props.C14."
-THEOREMS = [P + n for n in ("alphabet", "no_padding", "roundtrip", "roundtrip_unpadded", "injective", "roundtrip_str")]
+THEOREMS = [P + n for n in ("alphabet", "no_padding", "roundtrip", "roundtrip_unpadded", "injective", "roundtrip_str", "length")]
 LEAN_TARGETS = ["Props.C14"]
 ASSUMPTIONS = [
     "model = transcription of CPython binascii.a2b_base64 (non-strict) + urlsafe translation; tied to the code by "
